@@ -3,16 +3,22 @@
     msm_sig_frag!, mask_len_*, mask_to_id_vec_*, cell_mask_id_vec after the two cell-count fixes).
     PARTIAL: proved -- whatever the encoder accepts satisfies the preconditions of the property (satellites
     within 1..64 and pairwise distinct, every cell on a satellite within 1..64 with a recognised signal, the
-    satellites of the cells equal to the satellites listed, at most 64 mask cells, at most 64 rows), the
-    satellite mask has exactly the bits of the listed satellites, and the three masks of all 49 MSM layouts
-    start at payload bits 73 / 137 / 169.  Not proved: the signal/cell mask contents and row order on the
-    wire for every admissible input, order independence and the decode round trip; these are covered by the
-    ROUNDTRIP correspondence (model = implementation on every generated message) and by the probe that
-    recomputes the masks independently. *)
+    satellites of the cells equal to the satellites listed, at most 64 mask cells, at most 64 rows); and for
+    every accepted input, in whatever order the caller listed it ([C10_masks], Proofs/MsmMasks.v): the three
+    masks are written first, in the order satellite (64 bits), signal (32 bits), cell (|G| x |S| bits); the
+    satellite mask has exactly the bits of the listed satellites, which are exactly the satellites of the
+    cells; the signal mask has exactly the bits of the cells' signal identifiers; and the cell mask has
+    exactly the bits at the row-major index of each cell -- (rank of its satellite among the listed
+    satellites) x (number of signals) + (rank of its signal among the used signals), counted from the most
+    significant bit -- with no two cells at one index.  The masks of all 49 MSM layouts start at payload
+    bits 73 / 137 / 169.  Not proved: that the data rows follow in ascending order (the sort), order
+    independence of the row contents and the decode round trip; these are covered by the ROUNDTRIP
+    correspondence (model = implementation on every generated message) and by the probe that recomputes
+    masks and rows independently. *)
 From Coq Require Import ZArith List Lia Bool.
 From RtcmModel Require Import Types BitIO SigId Msm Layout Top.
 From RtcmGen Require Import GenSignals GenLayouts.
-From RtcmProofs Require Import ListZ MsmProofs.
+From RtcmProofs Require Import ListZ MsmProofs MsmMasks.
 Import ListNotations.
 Open Scope Z_scope.
 
@@ -35,6 +41,40 @@ Theorem C10_sat_mask_bits : forall sats m, enc_sat_mask sats 0 = Ok m ->
 Proof.
   intros sats m H s Hs. destruct (enc_sat_mask_spec sats 0 m H) as [_ [Hb _]]. rewrite (Hb s Hs), Z.bits_0. reflexivity.
 Qed.
+
+(** the masks of every accepted non-empty MSM data segment: see [msm_masks_spec] in Proofs/MsmMasks.v *)
+Theorem C10_masks : forall g a b st sats sigs st', t_encode_frag (FMsm g a b) st (VStruct [VList sats; VList sigs]) = Ok st' ->
+  ~ (sats = [] /\ sigs = []) ->
+  exists sat_mask sig_mask cell_mask st1 st2 st3,
+    put KU 64 (fst st) (snd st) sat_mask 64 = Ok st1 /\ put KU 32 (fst st1) (snd st1) sig_mask 32 = Ok st2 /\
+    put KU 64 (fst st2) (snd st2) cell_mask (mask_len 32 sig_mask * zlen sats) = Ok st3 /\
+    msm_masks_spec (sig_table g) sats sigs sat_mask sig_mask cell_mask.
+Proof. intros g a b st sats sigs st' H. cbn [t_encode_frag encode_frag] in H. eapply msm_encode_masks. exact H. Qed.
+Check C10_masks : forall g a b st sats sigs st', t_encode_frag (FMsm g a b) st (VStruct [VList sats; VList sigs]) = Ok st' ->
+  ~ (sats = [] /\ sigs = []) ->
+  exists sat_mask sig_mask cell_mask st1 st2 st3,
+    put KU 64 (fst st) (snd st) sat_mask 64 = Ok st1 /\ put KU 32 (fst st1) (snd st1) sig_mask 32 = Ok st2 /\
+    put KU 64 (fst st2) (snd st2) cell_mask (mask_len 32 sig_mask * zlen sats) = Ok st3 /\
+    (let cells := cell_keys (sig_table g) sigs in
+     let ccl := mask_len 32 sig_mask * zlen sats in
+     (forall s, 1 <= s <= 64 -> Z.testbit sat_mask (64 - s) = existsb (Z.eqb s) (sat_ids sats)) /\
+     (forall s, 1 <= s <= 64 -> existsb (Z.eqb s) (sat_ids sats) = existsb (fun c => fst c =? s) cells) /\
+     (forall g0, 1 <= g0 <= 32 -> Z.testbit sig_mask (32 - g0) = existsb (fun c => snd c =? g0) cells) /\
+     ccl <= 64 /\
+     (forall t, 0 <= t -> Z.testbit cell_mask t = existsb (fun c => ccl - 1 - cell_index sat_mask sig_mask c =? t) cells) /\
+     (forall c, In c cells -> 0 <= cell_index sat_mask sig_mask c <= ccl - 1) /\
+     NoDup (map (cell_index sat_mask sig_mask) cells)).
+
+(** non-vacuity: GPS satellites {5, 3} with signals 1C on 5 and 2W, 1C on 3, listed out of order:
+    satellite mask 00101000.., signal mask bits 2 (1C) and 10 (2W), cell mask 11|10 (satellite 3: both, satellite 5: 1C) *)
+Example C10_masks_example :
+  match t_encode_frag (FMsm G_gps [] []) (repeat 0 30, 0)
+          (VStruct [VList [VStruct [VInt 5]; VStruct [VInt 3]];
+                    VList [VStruct [VInt 5; VSig 1 67]; VStruct [VInt 3; VSig 2 87]; VStruct [VInt 3; VSig 1 67]]]) with
+  | Ok (d, o) => o = 100 /\ firstn 13 d = [40; 0; 0; 0; 0; 0; 0; 0; 64; 64; 0; 0; 224]
+  | _ => False
+  end.
+Proof. vm_compute. split; reflexivity. Qed.
 
 (** table obligation [msm_mask_offsets]: in every MSM layout the data segment is the last fragment and is
     preceded by 61 header bits, so that with the 12-bit message number the masks start at bits 73, 137, 169 *)
@@ -64,3 +104,4 @@ Proof. split; vm_compute; reflexivity. Qed.
 Print Assumptions C10_rejects.
 Print Assumptions C10_sat_mask_bits.
 Print Assumptions C10_mask_offsets.
+Print Assumptions C10_masks.
